@@ -29,7 +29,9 @@ def register(claim, na):
     claim("C17", "other", "THIR pattern tables over the enumerated FileEventKind domain vs the function's own doc table and the sibling FsEventKind table; MIR dominance for sort-before-join, skip edges and loop nesting",
           "Decides the structural part only: for all 41 file-event kinds the variable/label chosen is the documented one and agrees with the "
           "sibling JSON table; entries come from a HashSet and are sorted before the join on every path; path-less events reach the next "
-          "iteration without touching an accumulator; kinds come only from FileEventKind tags; the line format nests events > paths > kinds. "
+          "iteration without touching an accumulator and no event ends the loop early; a pathed event feeds the common-prefix input and the bucket of each "
+          "of its kinds; each entry is appended exactly once with the separator before every entry but the first; COMMON is set exactly when a common "
+          "path exists; kinds come only from FileEventKind tags and paths only from Path tags; the line format nests events > paths > kinds. "
           "The path algebra (common prefix, strip/join round trip) is value-level and explicitly not claimed.",
           "trusts HashSet de-duplication, slice::sort ordering of OsString (byte order), Path::strip_prefix/common-prefix arithmetic (undecided remainder)",
           "DESIGN.md section 5 C17")
